@@ -414,9 +414,15 @@ func runC14(r *Rand, tier string, o *Out) {
 	declared := map[string]string{"delay": "i", "level": "i", "label": "s", "ratio": "f", "101": "i", "200": "i", "201": "s", "202": "f"}
 	for s := 0; s < rounds; s++ {
 		o.Do("P", "pr.reset", false)
+		last := map[string]int{} // what was last sent to a target: writing the value a register already holds is an accepted write like any other
 		for i := 0; i < 30; i++ {
 			t := []string{"bomb", "custom", "custom"}[r.Intn(3)]
 			data := r.Intn(60)
+			if prev, ok := last[t]; ok && r.Chance(30) {
+				data = prev
+				o.Count("value:repeated")
+			}
+			last[t] = data
 			switch k := r.Intn(100); {
 			case k < 45: // a write
 				kind, x := "name", names[t][r.Intn(len(names[t]))]
